@@ -204,7 +204,12 @@ func c03Run(c C03Case, run int) c03Obs {
 	case "compare-all":
 		args = []string{"regex", "compare", "--all"}
 	}
-	r := cli.Run(cli.Opt{Dir: cwd, Stdin: stdin, Timeout: 30 * time.Second}, append([]string{"-d", root}, args...)...)
+	pieces := 0
+	if c.Mode == "generate-stdin" && run%2 == 1 {
+		// the same text, arriving through the pipe in two or three pieces
+		pieces = 2 + run%3%2
+	}
+	r := cli.Run(cli.Opt{Dir: cwd, Stdin: stdin, StdinPieces: pieces, Timeout: 30 * time.Second}, append([]string{"-d", root}, args...)...)
 	// tree content (paths + bytes), independent of the sandbox location
 	t := cli.ReadTree(root)
 	names := make([]string, 0, len(t))
